@@ -49,7 +49,12 @@ def impl(c):
             elif op[0] == 2: tgt.set_fire({ext[v] for v in op[1]})
             else: d.chip_transfer(ext[op[1]], ext[op[2]], op[3])
         except ValueError: res = "err"
-        out.append({"res": res, "degs": common.div_to_list(G, d), "total": d.get_total_degree(), "eff": bool(d.is_effective())})
+        st = {"res": res, "degs": common.div_to_list(G, d), "total": d.get_total_degree(), "eff": bool(d.is_effective())}
+        if rng.random() < 0.15:
+            import copy
+            for nm, cp in (("copy.copy", copy.copy(d)), ("copy.deepcopy", copy.deepcopy(d))):
+                if common.div_to_list(G, cp) != st["degs"] or cp.get_total_degree() != st["total"]: st["copy_bad"] = "%s of the divisor holds %s (total %s), the divisor holds %s (total %s)" % (nm, common.div_to_list(G, cp), cp.get_total_degree(), st["degs"], st["total"])
+        out.append(st)
     return out
 def model_lines(c):
     toks = ["dhist"] + common.enc_graph(c["G"]) + [c["q"]] + common.enc_list(c["D"]) + [len(c["ops"])]
@@ -68,11 +73,13 @@ def judge(c, r, mo):
         if ir["res"] != res: return [{"what": "move #%d %s: implementation %s, model %s" % (i, c["ops"][i], ir["res"], res)}]
         if ir["degs"] != degs: return [{"what": "after move #%d %s: degrees %s, model %s" % (i, c["ops"][i], ir["degs"], degs)}]
         if ir["total"] != total or ir["eff"] != eff: return [{"what": "after move #%d: total/effective %s/%s, model %s/%s" % (i, ir["total"], ir["eff"], total, eff)}]
+        if ir.get("copy_bad"): return [{"what": "after move #%d: %s" % (i, ir["copy_bad"])}]
     return []
 def oracle(c, r):
     if r is None or "exc" in r: return {"violates": True, "why": "raised"}
     M = common.matrix(c["G"]); n = c["G"]["n"]; D = list(c["D"]); q = c["q"]; tot0 = sum(D)
     for i, (op, ir) in enumerate(zip(c["ops"], r["ok"])):
+        if ir.get("copy_bad"): return {"violates": True, "why": ir["copy_bad"]}
         exp = "ok"; E = list(D)
         if op[0] in (0, 1):
             v = op[1]
